@@ -181,7 +181,9 @@ func rebootIncompleteBlobSize(key string, pather *pather) (size uint64, ok bool,
 	}
 	blobSize, err := strconv.Atoi(string(blobSizeData))
 	if err != nil {
-		return 0, false, fmt.Errorf("blob size sidecar file is in unexpected format: %w", err)
+		// The size file is created and written in two steps, so a crash in between leaves it empty.
+		// Treat unparsable contents like a missing file: we fail-open by evicting the blob.
+		return 0, false, nil
 	}
 	return uint64(blobSize), true, nil
 }
